@@ -7,7 +7,7 @@ import vlib
 THEOREMS = ["Slock.C10F." + t for t in (
     "C10F_never_decides_partial C10F_fabricated_codes C10F_not_local_partial C10F_refusal_reason C10F_never_decides_violated "
     "C10F_first_text_command_refused_locally C10F_relay_unchanged C10F_relay_binary_unconditional C10F_forward_unchanged "
-    "C10F_forward_nothing_else C10F_wills_forwarded_at_close C10F_wills_dropped_without_link C10F_same_outcome C10F_same_outcome_text C10F_one_reply C10F_delivered_spec C10F_one_reply_exactly "
+    "C10F_forward_nothing_else C10F_wills_forwarded_at_close C10F_wills_dropped_without_link C10F_wills_cut_short_violated C10F_same_outcome C10F_same_outcome_text C10F_one_reply C10F_delivered_spec C10F_one_reply_exactly "
     "C10F_text_unblocked C10F_one_reply_link_loss_violated C10F_one_reply_rerouted_violated C10F_early_answer_harmless "
     "C10F_late_init_unanswered C10F_init_answer_unattached C10F_role_change C10F_role_change_back C10F_local_exclusive").split()]
 
@@ -34,6 +34,11 @@ ASSUMPTIONS = [
     "command as the link's latest one is reported in EVERY case (C10:answer-did-not-clear-latest); the `re` input of the model has no effect any more "
     "(C10F_early_answer_harmless) and the harness no longer produces it; every eighth case has the leader's frames held back 20 ms; a case that does "
     "not finish within 90 s (node stuck) ends the run with C10:case-hung",
+    "a close during which the link's own reader closes the link (it relays the leader's first answers to the client that has gone, the second "
+    "write fails) loses the will commands Close has not written yet: a race of the real code, an input of the model (`x c k`, Event.closeCut; "
+    "C10F_wills_cut_short_violated), set by the harness from the number of frames that reached the proxy (it waits 3 s for the last will before "
+    "it says so); counted as observation C10:wills-cut-short-at-close (a monitor failure C10:will-not-forwarded-at-close only under "
+    "VERIF_TRANS_STRICT); reproducer with real processes: tools/c10f_repro.py R6",
     "a first short text command that the node's own engine refuses with STATE_ERROR is within the statement (refuse or forward): counted as "
     "observation C10:refused-first-text-command, not a monitor failure; C10:no-reply-after-link-loss is an observation (VERIF_TRANS_STRICT off)",
     "C10F_one_reply is proved under OkRun: the client does not reuse a RequestId on a connection; the leader answers a forwarded LOCK/UNLOCK at "
